@@ -37,7 +37,7 @@ def run(ctx):
         return
     # VERIF_BF_SKIP_EXH=1: builder's mutation runs only (the exhaustive TLC part does not depend on the dolt tree)
     for cfg in [] if os.environ.get("VERIF_BF_SKIP_EXH") else ctx.q(["c21_exh_quick.cfg"], ["c21_exh_quick.cfg", "c21_exh_thorough.cfg", "c21_exh_t_inst.cfg"]):
-        ctx.tlc_check("RefStore.tla", cfg, timeout=ctx.q(7200, 14400), heap=ctx.q("6g", "12g"))
+        ctx.tlc_check("RefStore.tla", cfg, timeout=ctx.q(7200, 14400), heap=ctx.q("6g", "8g"))
     bf.expect_model_violation(ctx, "RefStore.tla", "c21_split.cfg", "Invariant HeadWsAtomic is violated")
     ctx.cov["non_vacuity"] = "HeadWsAtomic is violated (TLC counterexample found) on the SplitCWW variant of the model (two update loops)"
     ctx.assumptions += [
@@ -51,8 +51,8 @@ def run(ctx):
                        "client's store commit succeeded while a CommitWithWorkingSet was in flight, replayed to its end; distinct by action sequence + binding. "
                        "T: traces accepted by TraceRefStore.tla with every persisted root inspected; crash: journal cuts whose recovered root was inspected")
     nq = ctx.q(1, 6)
-    beh_s = ctx.tlc_behaviours("RefStore.tla", "c21_sim_shared.cfg", num=150 * nq * 2, depth=90, timeout=7200)
-    beh_i = ctx.tlc_behaviours("RefStore.tla", "c21_sim_inst.cfg", num=90 * nq * 2, depth=60, seed=ctx.seed + 5, timeout=7200)
+    beh_s = ctx.tlc_behaviours("RefStore.tla", "c21_sim_shared.cfg", num=150 * nq * 2, depth=90, timeout=7200, procs=4)
+    beh_i = ctx.tlc_behaviours("RefStore.tla", "c21_sim_inst.cfg", num=90 * nq * 2, depth=60, seed=ctx.seed + 5, timeout=7200, procs=4)
     fill = ctx.q([0, 30, 400], [0, 30, 400, 3000])
     cs = (bf.gated_cases(ctx, beh_s[:150 * nq], bf.SHARED_BACKENDS, fill) + bf.gated_cases(ctx, beh_i[:90 * nq], bf.INST_BACKENDS, fill))
     ncww = sum(bf.behaviour_facts(c["steps"])["cww"] for c in cs)
@@ -64,7 +64,7 @@ def run(ctx):
     st = next((c for c in cs if c["binding"]["backend"] in ("memshared", "memviews") and
                any(s["a"] == "CAS" and s["exp"]["x"]["casok"] and not s["exp"]["x"]["noop"] for s in c["steps"][1:])), cs[0])
     ctx.binding_selftest(binary, st, bf.corrupt_root, args=["gated"])
-    ctx.replay_behaviours(binary, cs, args=["gated"], critical=critical, wrap=lambda c: c,
+    ctx.replay_behaviours(binary, cs, args=["gated"], critical=critical, wrap=lambda c: c, shards=4,
                           fingerprint=lambda c, r: str(r.get("fp")) if str(r.get("fp")).startswith("C21:") else "C21:" + str(r.get("fp")), timeout=3000)
     # ---------------------------------------------------------------- T
     kinds = ["CWW", "CWW", "CWW", "UpdWS", "UpdWS", "SetHead", "FF", "Commit", "Delete", "Get"]
